@@ -87,15 +87,26 @@ func EvalFresh(t *testing.T, ch Checker, seed uint64, tier string) (*Case, *Outc
 
 // EvalRecord evaluates c with fresh scheduling decisions drawn from schedSeed.
 func EvalRecord(t *testing.T, ch Checker, c *Case, schedSeed uint64) *Outcome {
-	var decs []*Decider
+	decs := map[int]*Decider{}
+	maxIdx := -1
 	o := ch.Eval(t, c, func(i int) *Decider {
 		d := NewRecorder(hashLabel(schedSeed, fmt.Sprintf("dec%d", i)))
-		decs = append(decs, d)
+		decs[i] = d
+		if i > maxIdx {
+			maxIdx = i
+		}
 		return d
 	})
-	c.Decisions = nil
-	for _, d := range decs {
-		c.Decisions = append(c.Decisions, append([]int{}, d.Vec...))
+	// decisions are stored under the index the checker asked for (a checker may
+	// skip sub-runs)
+	c.Decisions = make([][]int, maxIdx+1)
+	for i, d := range decs {
+		c.Decisions[i] = append([]int{}, d.Vec...)
+	}
+	for i := range c.Decisions {
+		if c.Decisions[i] == nil {
+			c.Decisions[i] = []int{}
+		}
 	}
 	return o
 }
